@@ -33,6 +33,9 @@ type InterfaceType struct {
 	TypePackage string
 	IsPointer   bool
 	IsVariadic  bool
+	// GoType is the type itself (the element type for a variadic parameter);
+	// nil in hand-built models, which are then compared by name
+	GoType types.Type
 }
 
 // LoadInterfaces loads specified interfaces from the analysis pass
@@ -170,6 +173,7 @@ func convertTypesToInterfaceType(t types.Type) InterfaceType {
 	if ptr, ok := t.(*types.Pointer); ok {
 		inner := convertTypesToInterfaceType(ptr.Elem())
 		inner.IsPointer = true
+		inner.GoType = t
 		return inner
 	}
 
@@ -187,6 +191,7 @@ func convertTypesToInterfaceType(t types.Type) InterfaceType {
 			TypePackage: pkgPath,
 			IsPointer:   false,
 			IsVariadic:  false,
+			GoType:      t,
 		}
 	}
 
@@ -197,6 +202,7 @@ func convertTypesToInterfaceType(t types.Type) InterfaceType {
 			TypePackage: "",
 			IsPointer:   false,
 			IsVariadic:  false,
+			GoType:      t,
 		}
 	}
 
@@ -205,5 +211,6 @@ func convertTypesToInterfaceType(t types.Type) InterfaceType {
 		TypeName:   t.String(),
 		IsPointer:  false,
 		IsVariadic: false,
+		GoType:     t,
 	}
 }
